@@ -533,3 +533,21 @@ package common
 //@   trusted
 //@   requires conn != nil
 //@   ensures [C04] shape: res != "" && noSemi(res)
+
+// ---------------------------------------------------------------------------------------------
+// The exported shape of a connection (C05, C09): one entry per protocol of the set - so a non-empty set that is not
+// "all connections" is exported with at least one protocol, and an empty one with none
+// ---------------------------------------------------------------------------------------------
+//@ func (*ConnectionSet).ProtocolsAndPortsMap
+//@   requires wfCS(conn)
+//@   modifies map[v1.Protocol][]PortRange { m | fresh(m) }
+//@   modifies portRange.Interval { r | fresh(r) }
+//@   ensures [C05,C09] keys: res != nil && fresh(res) && (forall q v1.Protocol :: {q in res} (q in res) == (q in conn.AllowedProtocols))
+//@   ensures [C05,C09] count: len(res) == len(conn.AllowedProtocols)
+//@   ensures [C05] kept: conn.AllowAll == old(conn.AllowAll) && conn.AllowedProtocols == old(conn.AllowedProtocols) && dom(conn.AllowedProtocols) == old(dom(conn.AllowedProtocols))
+//@   loop 1:
+//@     invariant keys: res != nil && fresh(res) && (forall q v1.Protocol :: {q in res} {seen(q)} (q in res) == seen(q)) && len(res) == seencount() && (forall q v1.Protocol :: {seen(q)} seen(q) ==> q in conn.AllowedProtocols)
+//@     invariant kept: conn.AllowAll == old(conn.AllowAll) && conn.AllowedProtocols == old(conn.AllowedProtocols) && dom(conn.AllowedProtocols) == old(dom(conn.AllowedProtocols)) && wfCS(conn)
+//@   loop 2:
+//@     invariant keys: res != nil && fresh(res) && (forall q v1.Protocol :: {q in res} {seen(q)} (q in res) == seen(q)) && len(res) == seencount() && (forall q v1.Protocol :: {seen(q)} seen(q) ==> q in conn.AllowedProtocols)
+//@     invariant kept: conn.AllowAll == old(conn.AllowAll) && conn.AllowedProtocols == old(conn.AllowedProtocols) && dom(conn.AllowedProtocols) == old(dom(conn.AllowedProtocols)) && wfCS(conn)
